@@ -11,7 +11,8 @@ From Coq Require Import List Arith Bool.
 Import ListNotations.
 From KV Require Import Model.Triu Model.Coll Model.Greedy Model.Neox Model.Shard.
 
-Record nxcfg := { nP : nat; nD : nat; nM : nat; nsym : bool }.
+Record nxcfg := { nP : nat; nD : nat; nM : nat; nsym : bool; nfdt : nat; nxdt : nat }.
+(* nfdt / nxdt: dtype tags of the factors / of activations, parameters and gradients *)
 Definition nW (c : nxcfg) : nat := nP c * nD c * nM c.
 
 (* a sharded linear layer of one pipeline stage: full dimensions, rows of a micro-batch, its inverse worker *)
@@ -28,7 +29,7 @@ Definition nmembers (c : nxcfg) : list (list nat) :=
   ++ map (fun p => seq (p * (nD c * nM c)) (nD c * nM c)) (seq 0 (nP c)).
 
 (* kinds: 1 all_reduce, 2 broadcast, 3 all_gather, 4 reduce_scatter *)
-Definition ins (g kind n root : nat) : inst := mkI g kind n 0 root.
+Definition ins (g kind dt n root : nat) : inst := mkI g kind n dt root.
 
 Definition na_of (l : nxlayer) : nat := x_in l + (if x_bias l then 1 else 0).
 Definition fnumel (c : nxcfg) (n : nat) : nat := if nsym c then length (triu_idx n) else n * n.
@@ -49,57 +50,57 @@ Definition mc (r : nat) := c_model M r.
 (* forward hook of a factor-update pass: gather the sharded input, reduce A *)
 Definition fwd_rank (r : nat) (l : nxlayer) : list inst :=
   (match x_par l with
-   | ParInput => if Nat.ltb 1 M then [ins (g_mp c (pc r) (dc r)) 3 (x_rows l * (x_in l / M)) 0] else []
+   | ParInput => if Nat.ltb 1 M then [ins (g_mp c (pc r) (dc r)) 3 (nxdt c) (x_rows l * (x_in l / M)) 0] else []
    | ParOutput => [] end) ++
   (match x_par l with
    | ParInput => if Nat.eqb (mc r) (mc (x_inv l)) && Nat.ltb 1 D
-                 then [ins (g_dp c (pc r) (mc r)) 1 (fnumel c (na_of l)) 0] else []      (* primaries only, on their data-parallel group *)
-   | ParOutput => if Nat.ltb 1 (D * M) then [ins (g_st c (pc r)) 1 (fnumel c (na_of l)) 0] else []   (* replicated factor: the whole stage *)
+                 then [ins (g_dp c (pc r) (mc r)) 1 (nfdt c) (fnumel c (na_of l)) 0] else []      (* primaries only, on their data-parallel group *)
+   | ParOutput => if Nat.ltb 1 (D * M) then [ins (g_st c (pc r)) 1 (nfdt c) (fnumel c (na_of l)) 0] else []   (* replicated factor: the whole stage *)
    end).
 Definition bwd_rank (r : nat) (l : nxlayer) : list inst :=
   (match x_par l with
-   | ParOutput => if Nat.ltb 1 M then [ins (g_mp c (pc r) (dc r)) 3 (x_rows l * (x_out l / M)) 0] else []
+   | ParOutput => if Nat.ltb 1 M then [ins (g_mp c (pc r) (dc r)) 3 (nxdt c) (x_rows l * (x_out l / M)) 0] else []
    | ParInput => [] end) ++
   (match x_par l with
    | ParOutput => if Nat.eqb (mc r) (mc (x_inv l)) && Nat.ltb 1 D
-                  then [ins (g_dp c (pc r) (mc r)) 1 (fnumel c (x_out l)) 0] else []
-   | ParInput => if Nat.ltb 1 (D * M) then [ins (g_st c (pc r)) 1 (fnumel c (x_out l)) 0] else []
+                  then [ins (g_dp c (pc r) (mc r)) 1 (nfdt c) (fnumel c (x_out l)) 0] else []
+   | ParInput => if Nat.ltb 1 (D * M) then [ins (g_st c (pc r)) 1 (nfdt c) (fnumel c (x_out l)) 0] else []
    end).
 (* step(): preconditioned_grad on the model-parallel group of the inverse worker, then the data-parallel broadcast *)
 Definition pre_msgs (l : nxlayer) (g primary : nat) : list inst :=
   if Nat.ltb 1 M then
-    [ins g 3 (wshard c l) 0] ++
-    (if x_bias l then match x_par l with ParOutput => [ins g 3 (bshard c l) 0] | ParInput => [] end else []) ++
-    [ins g 4 (wshard c l) 0] ++
+    [ins g 3 (nxdt c) (wshard c l) 0] ++
+    (if x_bias l then match x_par l with ParOutput => [ins g 3 (nxdt c) (bshard c l) 0] | ParInput => [] end else []) ++
+    [ins g 4 (nxdt c) (wshard c l) 0] ++
     (if x_bias l then match x_par l with
-                      | ParOutput => [ins g 4 (bshard c l) 0]
-                      | ParInput => [ins g 2 (bshard c l) (S primary)] end else [])
+                      | ParOutput => [ins g 4 (nxdt c) (bshard c l) 0]
+                      | ParInput => [ins g 2 (nxdt c) (bshard c l) (S primary)] end else [])
   else [].
 Definition grad_rank (r : nat) (l : nxlayer) : list inst :=
   (if Nat.eqb (dc r) (dc (x_inv l))
    then pre_msgs l (g_mp c (pc r) (dc r)) (rank_of D M (pc r) (dc r) (mc (x_inv l))) else []) ++
-  (if Nat.ltb 1 D then [ins (g_dp c (pc r) (mc r)) 2 (gshard c l) (S (rank_of D M (pc r) (dc (x_inv l)) (mc r)))] else []).
+  (if Nat.ltb 1 D then [ins (g_dp c (pc r) (mc r)) 2 (nxdt c) (gshard c l) (S (rank_of D M (pc r) (dc (x_inv l)) (mc r)))] else []).
 
 (* --- the global order for one layer of stage p --- *)
 Definition fwd_all (p : nat) (l : nxlayer) : list inst :=
   (match x_par l with
-   | ParInput => if Nat.ltb 1 M then map (fun d => ins (g_mp c p d) 3 (x_rows l * (x_in l / M)) 0) (seq 0 D) else []
+   | ParInput => if Nat.ltb 1 M then map (fun d => ins (g_mp c p d) 3 (nxdt c) (x_rows l * (x_in l / M)) 0) (seq 0 D) else []
    | ParOutput => [] end) ++
   (match x_par l with
-   | ParInput => if Nat.ltb 1 D then [ins (g_dp c p (mc (x_inv l))) 1 (fnumel c (na_of l)) 0] else []
-   | ParOutput => if Nat.ltb 1 (D * M) then [ins (g_st c p) 1 (fnumel c (na_of l)) 0] else []
+   | ParInput => if Nat.ltb 1 D then [ins (g_dp c p (mc (x_inv l))) 1 (nfdt c) (fnumel c (na_of l)) 0] else []
+   | ParOutput => if Nat.ltb 1 (D * M) then [ins (g_st c p) 1 (nfdt c) (fnumel c (na_of l)) 0] else []
    end).
 Definition bwd_all (p : nat) (l : nxlayer) : list inst :=
   (match x_par l with
-   | ParOutput => if Nat.ltb 1 M then map (fun d => ins (g_mp c p d) 3 (x_rows l * (x_out l / M)) 0) (seq 0 D) else []
+   | ParOutput => if Nat.ltb 1 M then map (fun d => ins (g_mp c p d) 3 (nxdt c) (x_rows l * (x_out l / M)) 0) (seq 0 D) else []
    | ParInput => [] end) ++
   (match x_par l with
-   | ParOutput => if Nat.ltb 1 D then [ins (g_dp c p (mc (x_inv l))) 1 (fnumel c (x_out l)) 0] else []
-   | ParInput => if Nat.ltb 1 (D * M) then [ins (g_st c p) 1 (fnumel c (x_out l)) 0] else []
+   | ParOutput => if Nat.ltb 1 D then [ins (g_dp c p (mc (x_inv l))) 1 (nfdt c) (fnumel c (x_out l)) 0] else []
+   | ParInput => if Nat.ltb 1 (D * M) then [ins (g_st c p) 1 (nfdt c) (fnumel c (x_out l)) 0] else []
    end).
 Definition grad_all (p : nat) (l : nxlayer) : list inst :=
   pre_msgs l (g_mp c p (dc (x_inv l))) (rank_of D M p (dc (x_inv l)) (mc (x_inv l))) ++
-  (if Nat.ltb 1 D then map (fun m => ins (g_dp c p m) 2 (gshard c l) (S (rank_of D M p (dc (x_inv l)) m))) (seq 0 M) else []).
+  (if Nat.ltb 1 D then map (fun m => ins (g_dp c p m) 2 (nxdt c) (gshard c l) (S (rank_of D M p (dc (x_inv l)) m))) (seq 0 M) else []).
 End Rank.
 
 (* events of a training history (hook mode) *)
@@ -115,7 +116,7 @@ Definition nx_rank (c : nxcfg) (layers : nat -> list nxlayer) (r : nat) (e : nxe
   | NFwd i => match nth_error ls i with Some l => fwd_rank c r l | None => [] end
   | NBwd i => match nth_error ls i with Some l => bwd_rank c r l | None => [] end
   | NStep => flat_map (grad_rank c r) (rev ls)
-  | NUser ns => if Nat.ltb 1 (nD c) then map (fun n => ins (g_dp c (pc c r) (mc c r)) 1 n 0) ns else []
+  | NUser ns => if Nat.ltb 1 (nD c) then map (fun n => ins (g_dp c (pc c r) (mc c r)) 1 (nxdt c) n 0) ns else []
   end.
 (* one stage after the other: groups of different stages are disjoint *)
 Definition nx_all (c : nxcfg) (layers : nat -> list nxlayer) (e : nxev) : list inst :=
@@ -125,7 +126,7 @@ Definition nx_all (c : nxcfg) (layers : nat -> list nxlayer) (e : nxev) : list i
     | NFwd i => match nth_error ls i with Some l => fwd_all c p l | None => [] end
     | NBwd i => match nth_error ls i with Some l => bwd_all c p l | None => [] end
     | NStep => flat_map (grad_all c p) (rev ls)
-    | NUser ns => if Nat.ltb 1 (nD c) then flat_map (fun n => map (fun m => ins (g_dp c p m) 1 n 0) (seq 0 (nM c))) ns else []
+    | NUser ns => if Nat.ltb 1 (nD c) then flat_map (fun n => map (fun m => ins (g_dp c p m) 1 (nxdt c) n 0) (seq 0 (nM c))) ns else []
     end) (seq 0 (nP c)).
 
 Definition neox_issues (c : nxcfg) (layers : nat -> list nxlayer) (r : nat) (h : list nxev) : list inst :=
